@@ -19,7 +19,7 @@ func init() {
 		Technique: "storage-layout analysis: component kinds of every Find prefix and every Put key (constant, fixed-width, variable-length integer, caller-supplied bytes) — R-prefix rule, constant-prefix family disjointness, put/get key-term agreement; must-facts for the gates, the id length bound and the cleanup deltas",
 		Explanation: "D1 R-prefix: a Find whose prefix ends in a variable-length integer encoding while stored keys of that family continue after it also enumerates keys of other integers (bytes(1) is a prefix of bytes(257)); every scan of reputation, audit, container estimations, neofsid and the configuration maps is classified. Constant scan prefixes are family-disjoint. " +
 			"D2 put/get agreement: every getter builds its key/prefix from the same component terms as the putter (reputation storageID, audit header ID, estimation key, owner keys, config‖key); GetContainerSize accepts exactly the ids ListContainerSizes can return (length bound = prefix + container id). " +
-			"D3 gates: putContainerSize under W(key) ∧ membership of that key in the previous epoch's network map, audit.put under W(header.From) ∧ header.From ∈ Inner Ring. D4 cleanup: estimations are removed exactly when epoch − e > 3 (per node) resp. > 4 (global), with the key rebuilt by the same components as the putter. D5 neofsid.AddKey/RemoveKey act on every submitted key (loop-exhaustive rule); netmap.SetConfig, reputation.Put and audit.Put store on every normal return.",
+			"D3 gates: putContainerSize under W(key) ∧ membership of that key in the previous epoch's network map, audit.put under W(header.From) ∧ header.From ∈ Inner Ring. D4 cleanup: estimations are removed exactly when epoch − e > 3 (per node) resp. > 4 (global), with the key rebuilt by the same components as the putter. D5 neofsid.AddKey/RemoveKey act on every submitted key (loop-exhaustive rule); netmap.SetConfig, reputation.Put and audit.Put store on every normal return. D6 the global estimation cleanup examines every scanned key (scan left only on exhaustion; an iteration goes round the delete only with epoch − e ≤ 4).",
 		NotCovered: "multiset equality of listings with a model over interleavings. KNOWN FINDINGS (genuine, recorded in known_findings.json): the four scans that end in the variable-length epoch encoding.",
 		Run:        runC20,
 	})
@@ -376,6 +376,11 @@ func runC20(cx *CheckCtx) {
 			n := tb.mk("toint", "", 0, tb.mk("slice", "", 0, k, tb.constInt(3), tb.binop(token.SUB, tb.mk("len", "", 0, k), tb.constInt(42), intType)))
 			gap := tb.binop(token.SUB, fnParam(tb, fn, 1), n, intType)
 			okDelta = a.holdsAt(del.In, -a.litLtC(gap, 5)) && !a.holdsAt(del.In, -a.litLtC(gap, 6))
+			// every scanned key is examined: the scan ends only on exhaustion and an iteration
+			// goes round the delete only with epoch − e ≤ 4 established (keys are ordered by the
+			// little-endian bytes of the epoch, not by the epoch)
+			okAll, whyAll := everyElement(a, del, func(st *CNF) bool { return a.holdsAt(st, a.litLtC(gap, 5)) })
+			cx.decide(okAll, "cleanup", "container.cleanupContainers/every-key", "every scanned estimation older than 4 epochs is removed by the tick", "the global cleanup does not examine every scanned estimation: "+whyAll+"; an outdated estimation can survive the tick that should remove it", del.Where(w))
 		}
 		cx.decide(ok && okDelta, "cleanup", "container.cleanupContainers", "removes exactly the scanned estimations with epoch − e > 4, e decoded from key[3 : len−32−10]", "the global cleanup does not remove exactly the estimations older than 4 epochs (or decodes the epoch from other bytes than the putter wrote)", w.pos(fn.Pos()))
 	}
